@@ -188,17 +188,38 @@ def acceptDecisionPinned (ctxCancelled : Bool) (_closedLocally : Bool) (k : ErrK
 /-- what the caller of `AcceptWithContext` observes -/
 inductive Outcome
   | ctxErr | errClosed
-  | reconnected      -- connected again; back in the accept loop
+  | reconnected      -- connected again; back in the accept loop on the new session
   | connectErr       -- `connect: context canceled` (reconnect attempted with a cancelled closeCtx)
 deriving DecidableEq, Repr
 
-/-- classification followed by `l.connect(l.closeCtx)`, which retries forever unless
-`closeCtx` is cancelled -/
-def acceptOutcome (ctxCancelled closedLocally : Bool) (k : ErrKind) : Outcome :=
+/-- the re-check after a successful `l.connect(l.closeCtx)` (repair F11): if the listener was
+closed while reconnecting, nobody told the NEW session - close it and return `ErrClosed`;
+`true` = the new session is closed -/
+def afterReconnect (closedDuringReconnect : Bool) : Outcome × Bool :=
+  if closedDuringReconnect then (.errClosed, true) else (.reconnected, false)
+
+/-- classification, then `l.connect(l.closeCtx)` (retries forever unless `closeCtx` is already
+cancelled), then the re-check of `closeCtx`.  `closedLocally` = closed before the accept error
+was classified, `closedDuringReconnect` = closed while `connect` was running. -/
+def acceptOutcome (ctxCancelled closedLocally closedDuringReconnect : Bool) (k : ErrKind) : Outcome :=
+  match acceptDecision ctxCancelled closedLocally k with
+  | .ctxErr => .ctxErr
+  | .errClosed => .errClosed
+  | .reconnect =>
+    if closedLocally then .connectErr else (afterReconnect closedDuringReconnect).1
+
+/-- the outcome before the F11 repair, for reference: the new session was installed and
+accepted on whatever happened to `closeCtx` meanwhile (`Accept` blocked for ever) -/
+def acceptOutcomeBeforeF11 (ctxCancelled closedLocally _closedDuringReconnect : Bool) (k : ErrKind) : Outcome :=
   match acceptDecision ctxCancelled closedLocally k with
   | .ctxErr => .ctxErr
   | .errClosed => .errClosed
   | .reconnect => if closedLocally then .connectErr else .reconnected
+
+/-- is the reconnected upstream still registered at the server once `Accept` has returned?
+`Close` (go-away) after the reconnect keeps the connection (lazy removal, C16); a `Close` or
+`Shutdown` during the reconnect closes the new session; `Shutdown` always closes it. -/
+def registeredAfterLocalClose (shutdown during : Bool) : Bool := !shutdown && !during
 
 end Node
 end Piko
